@@ -144,10 +144,15 @@ def neg (steps : Nat) (p : PB) : Except Err PB :=
 
 def hasZero (l : List Rat) : Bool := l.any (· == 0)
 
-/-- `reciprocal`: `Staircase(left=1/flip(right), right=1/flip(left))` (arrays, not sorted).
+/-- `straddles_zero()`: `lo < 0 < hi` on the reported support -/
+def straddlesZero (p : PB) : Bool := decide (minL 0 p.left < 0) && decide (maxL 0 p.right > 0)
+
+/-- `reciprocal`: raises `ZeroDivisionError` when the support straddles zero, otherwise
+`Staircase(left=1/flip(right), right=1/flip(left))` (arrays, not sorted).
 A zero bound gives `inf` in numpy; not representable here -/
 def recip (steps : Nat) (p : PB) : Except Err PB :=
-  if hasZero p.left || hasZero p.right then .error .Value
+  if straddlesZero p then .error .ZeroDivision
+  else if hasZero p.left || hasZero p.right then .error .Value
   else mk steps false (p.right.reverse.map (1 / ·)) (p.left.reverse.map (1 / ·))
 
 /-- `pbox_number_ops(pbox, n, f)`: `sorted(f(left, n))`, `sorted(f(right, n))` (lists) -/
@@ -171,7 +176,6 @@ def imp (steps : Nat) (x y : PB) : Except Err PB :=
 
 /-! ## the public methods `add`, `sub`, `mul`, `div` between two p-boxes -/
 
-def straddlesZero (p : PB) : Bool := decide (minL 0 p.left < 0) && decide (maxL 0 p.right > 0)
 def lo (p : PB) : Rat := p.left.headD 0
 def hi (p : PB) : Rat := p.right.getLastD 0
 
